@@ -741,4 +741,8 @@ class _Counter(dict):
 
 
 def run(plan, wall_limit=None):
+    # every execution of a plan starts from the same state of the global random generator (a library that jitters its
+    # back-off draws from it): two executions of one session inside one check then differ only in what the check varies
+    import random
+    random.seed("net:%s:%s" % (plan.get("_seed"), plan.get("_idx")))
     return NetSim(plan, wall_limit).run()
